@@ -25,7 +25,7 @@ func filterErrorAction(fn *ast.FuncDecl, where string) (filterArg, returned stri
 	if m != nil {
 		return m[1], m[2]
 	}
-	m = regexp.MustCompile(`upstreams, err := channels\.Filter\(([A-Za-z.]+)\) if err != nil \{ errs = multierror\.Append\(errs, errors\.WithStack\(err\)\) continue \}`).FindStringSubmatch(body)
+	m = regexp.MustCompile(`[A-Za-z0-9_]+, err := channels\.Filter\(([A-Za-z.]+)\) if err != nil \{ errs = multierror\.Append\(errs, errors\.WithStack\(err\)\) continue \}`).FindStringSubmatch(body)
 	if m != nil && regexp.MustCompile(`if errs != nil \{ return errs \}`).MatchString(body) &&
 		strings.Index(body, "if errs != nil { return errs }") < strings.Index(body, "net.Listen(") {
 		return m[1], "errs-collected-before-listen"
@@ -79,6 +79,22 @@ func extractC03(o *out) {
 		arg, ret := filterErrorAction(findFunc(parse(x.file), x.recv, x.fn), x.recv+"."+x.fn)
 		fmt.Fprintf(b, "/-- %s %s.%s: Filter(%s); on error returns / wraps `%s` -/\ndef %sFilterErrReturns : String := %s\n", x.file, x.recv, x.fn, arg, ret, x.name, leanStr(ret))
 	}
+	// where the channel list a connection is served with comes from, per server kind
+	fmt.Fprintf(b, "\n/-- http_server.go: the list the websocket handler hands to AcceptConnection -/\ndef httpHandlerListOrigin : String := %s\n", leanStr(httpHandlerListOrigin(parse("internal/server/http_server.go"))))
+	for _, x := range []struct{ file, recv, fn, name string }{
+		{"internal/server/socket_server.go", "SocketServer", "Startup", "socket"},
+		{"internal/server/packet_server.go", "PacketServer", "StartupPacket", "packet"},
+		{"internal/server/stdio_server.go", "IoServer", "Startup", "stdio"},
+	} {
+		f := parse(x.file)
+		ok := false
+		if fn := findFunc(f, x.recv, x.fn); fn != nil && fn.Body != nil {
+			ok = regexp.MustCompile(`if upstreams, err := channels\.Filter\(st\.Channels\); err != nil \{ return [^{}]* \} else \{ st\.upstreams = upstreams \}`).MatchString(src(fn.Body)) &&
+				strings.Count(src(f), "st.upstreams") == 2 &&
+				regexp.MustCompile(`AcceptConnection\([a-z]+, &st\.ServerConfig, [a-z.]+, st\.upstreams\)`).MatchString(src(f))
+		}
+		fmt.Fprintf(b, "/-- %s: connections are served with st.upstreams, assigned once from Filter(st.Channels) of the same server -/\ndef %sServesOwnFilterResult : Bool := %v\n", x.file, x.name, ok)
+	}
 	chn := parse("internal/server/channel.go")
 	if fn := findFunc(chn, "Channels", "Filter"); fn != nil {
 		s := src(fn.Body)
@@ -90,4 +106,102 @@ func extractC03(o *out) {
 		s := src(fn.Body)
 		fmt.Fprintf(b, "/-- Channels.Find: first channel whose Name() == name (exact, case sensitive) -/\ndef findIsFirstExact : Bool := %v\n", strings.Contains(s, "for _, e := range *chl { if e.Name() == name { return e, nil }"))
 	}
+}
+
+// httpHandlerListOrigin says where the 4th argument (the channel list) of the AcceptConnection call in the handler
+// that HttpServer.EndpointHandler returns comes from. "per-endpoint-filter-result": it is a parameter of
+// EndpointHandler that is never reassigned, and Startup's loop over ws.Endpoints passes, for that parameter, the
+// variable it defined from channels.Filter(<loop value>.Channels) in the same iteration. Anything else is reported
+// as what was found (a field reached through a pointer, a receiver field, ...).
+func httpHandlerListOrigin(f *ast.File) string {
+	eh := findFunc(f, "HttpServer", "EndpointHandler")
+	st := findFunc(f, "HttpServer", "Startup")
+	if eh == nil || st == nil || eh.Body == nil || st.Body == nil {
+		fail("http_server.go: EndpointHandler / Startup not found")
+		return "?"
+	}
+	params := map[string]int{}
+	k := 0
+	for _, fl := range eh.Type.Params.List {
+		for _, n := range fl.Names {
+			params[n.Name] = k
+			k++
+		}
+	}
+	var arg ast.Expr
+	calls := 0
+	reassigned := map[string]bool{}
+	ast.Inspect(eh.Body, func(n ast.Node) bool {
+		switch x := n.(type) {
+		case *ast.CallExpr:
+			if id, ok := x.Fun.(*ast.Ident); ok && id.Name == "AcceptConnection" && len(x.Args) == 4 {
+				arg = x.Args[3]
+				calls++
+			}
+		case *ast.AssignStmt:
+			for _, l := range x.Lhs {
+				if id, ok := l.(*ast.Ident); ok {
+					reassigned[id.Name] = true
+				}
+			}
+		}
+		return true
+	})
+	if calls != 1 {
+		return fmt.Sprintf("%d AcceptConnection calls in EndpointHandler", calls)
+	}
+	id, ok := arg.(*ast.Ident)
+	if !ok {
+		return "not a parameter: " + src(arg)
+	}
+	idx, isParam := params[id.Name]
+	if !isParam || reassigned[id.Name] {
+		return "not an unmodified parameter: " + id.Name
+	}
+	// Startup: for _, <v> := range ws.Endpoints { <x>, err := channels.Filter(<v>.Channels) ... ws.EndpointHandler(..., <x>) ... }
+	result := "Startup: endpoint loop not recognised"
+	ast.Inspect(st.Body, func(n ast.Node) bool {
+		rs, ok := n.(*ast.RangeStmt)
+		if !ok || src(rs.X) != "ws.Endpoints" {
+			return true
+		}
+		v, ok := rs.Value.(*ast.Ident)
+		if !ok {
+			return false
+		}
+		filtered := map[string]bool{} // variables defined from channels.Filter(<v>.Channels) at the top level of the loop body
+		for _, stmt := range rs.Body.List {
+			as, ok := stmt.(*ast.AssignStmt)
+			if !ok || len(as.Lhs) != 2 || len(as.Rhs) != 1 {
+				continue
+			}
+			l, ok := as.Lhs[0].(*ast.Ident)
+			if !ok {
+				continue
+			}
+			if as.Tok.String() == ":=" && src(as.Rhs[0]) == "channels.Filter("+v.Name+".Channels)" {
+				filtered[l.Name] = true
+			} else if filtered[l.Name] {
+				delete(filtered, l.Name) // overwritten later
+			}
+		}
+		ast.Inspect(rs.Body, func(m ast.Node) bool {
+			c, ok := m.(*ast.CallExpr)
+			if !ok || src(c.Fun) != "ws.EndpointHandler" {
+				return true
+			}
+			if idx < len(c.Args) {
+				if a, ok := c.Args[idx].(*ast.Ident); ok && filtered[a.Name] {
+					result = "per-endpoint-filter-result"
+				} else {
+					result = "Startup passes " + src(c.Args[idx])
+				}
+			} else {
+				result = "Startup passes no such argument"
+			}
+			return false
+		})
+		return false
+	})
+	return result
 }
